@@ -72,6 +72,10 @@ def fixed_pool():
         ('P(">=1.2.0,<1.3")', lambda: P(">=1.2.0,<1.3")),
         ('P(">=1.2") & P("<1.3.0")', lambda: P(">=1.2") & P("<1.3.0")),
         ('P(">=1.2.0") & P("<1.3")', lambda: P(">=1.2.0") & P("<1.3")),
+        ('P("!=1!2.3.*")', lambda: P("!=1!2.3.*")),
+        ('~P("==1!2.3.*")', lambda: ~P("==1!2.3.*")),
+        ('P("<1!2.3||>=1!2.4.0")', lambda: P("<1!2.3||>=1!2.4.0")),
+        ('P("<1!2.3")|P(">=1!2.4.0")', lambda: P("<1!2.3") | P(">=1!2.4.0")),
         ('P("~=1.2")', lambda: P("~=1.2")),
         ('P(">=1.2,<2")', lambda: P(">=1.2,<2")),
         ('P(">=1.2,<2.0")', lambda: P(">=1.2,<2.0")),
@@ -236,6 +240,16 @@ def check_pool(acc, kind, case, pool, triples=True, shard=0, nshards=1):
                 if harness.KNOWN_ENABLED and (_known_obj(x) or _known_obj(y)):
                     acc.excluded_known["S4a"] += 1
                 else:
+                    # ... and through their text view (what to_specifierset(), from_specifier and lock files consume):
+                    # the texts of equal objects must denote one set (a text that does not parse is C06's business)
+                    try:
+                        tx, ty = parse_version_specifier(str(x)), parse_version_specifier(str(y))
+                    except Exception:  # noqa: BLE001
+                        tx = ty = None
+                    if tx is not None:
+                        acc.oracle_evaluations += 1
+                        if meaning(tx) != meaning(ty):
+                            acc.fail(kind, f"spec:equal-but-text-views-differ:{type(x).__name__}x{type(y).__name__}", case, expected="str(x) and str(y) denote the same set", got={"x": ri, "y": rj, "str(x)": str(x), "str(y)": str(y)})
                     for v in _final_probes(x, y):
                         acc.oracle_evaluations += 1
                         try:
